@@ -243,6 +243,9 @@ var date8 = regexp.MustCompile(`^[0-9]{8}$`)
 
 // the civil-midnight oracle table for every start_date lexeme of the message, in the zone of the parse
 func cmTable(m *gtfsrt.FeedMessage, tz *time.Location) string {
+	return cmTableMsgs([]*gtfsrt.FeedMessage{m}, tz)
+}
+func cmTableMsgs(ms []*gtfsrt.FeedMessage, tz *time.Location) string {
 	if tz == nil {
 		tz = time.UTC
 	}
@@ -259,11 +262,16 @@ func cmTable(m *gtfsrt.FeedMessage, tz *time.Location) string {
 		d, _ := strconv.Atoi(s[6:8])
 		rows = append(rows, fmt.Sprintf("((%d, %d, %d), %s)", y, mo, d, cZ(time.Date(y, time.Month(mo), d, 0, 0, 0, 0, tz).Unix())))
 	}
-	for _, e := range m.Entity {
-		add(e.GetTripUpdate().GetTrip())
-		add(e.GetVehicle().GetTrip())
-		for _, s := range e.GetAlert().GetInformedEntity() {
-			add(s.Trip)
+	for _, m := range ms {
+		if m == nil {
+			continue
+		}
+		for _, e := range m.Entity {
+			add(e.GetTripUpdate().GetTrip())
+			add(e.GetVehicle().GetTrip())
+			for _, s := range e.GetAlert().GetInformedEntity() {
+				add(s.Trip)
+			}
 		}
 	}
 	sort.Strings(rows)
